@@ -145,6 +145,10 @@ func verifC01_Serve() {
 		declared = int64(verifChoose("req.declaredLength", verifBound("maxBody")+2))
 	}
 	std := &http.Request{Method: method, Host: "h", URL: &url.URL{Path: path}, Header: http.Header{}, Body: body, ContentLength: declared, RemoteAddr: "9.9.9.9:1"}
+	// the media type of the body is no reason to treat its size differently
+	if ct := []string{"", "application/grpc", "text/event-stream"}[verifChoose("req.contentType", 3)]; ct != "" {
+		std.Header["Content-Type"] = []string{ct}
+	}
 	w := &vWriter{hdr: http.Header{}}
 	m.inst.Load().(*muxInstance).serveHTTP(w, std)
 
